@@ -32,7 +32,8 @@ impl Ctx {
         if self.n % 20000 == 0 {
             self.m = Model::new_empty("m", self.loc, "UTC", self.lang).unwrap();
         } else {
-            self.m.workbook.worksheets[0].sheet_data.clear();
+            let ws = &mut self.m.workbook.worksheets[0];
+            ws.sheet_data.clear(); ws.rows.clear(); ws.cols.clear();
         }
     }
     /// type `s` into a fresh A1 and describe the cell
@@ -211,9 +212,118 @@ fn main() {
             }
         }
     }
+
+    // ---------- previous cell state x typed input (two steps on one cell) ----------
+    // previous state = an initial style (on the cell, its row or its column) + typed steps
+    #[derive(Clone)]
+    struct Prev { name: &'static str, place: u8 /*0 none 1 cell 2 row 3 column*/, fmt: &'static str, qp: bool, bold: bool, steps: Vec<String> }
+    let mut n_two = 0u64;
+    let mut two_kinds = std::collections::BTreeMap::<String, u64>::new();
+    for lang in LANGS {
+        for loc in LOCALES {
+            let l = ironcalc_base::locale::get_locale(loc).unwrap();
+            let g = ironcalc_base::language::get_language(lang).unwrap();
+            let d = l.numbers.symbols.decimal.clone();
+            let gs = l.numbers.symbols.group.clone();
+            let p = |place: u8, fmt: &'static str, qp: bool, bold: bool, steps: &[&str], name: &'static str| Prev { name, place, fmt, qp, bold, steps: steps.iter().map(|x| x.to_string()).collect() };
+            let grouped = format!("1{gs}234");
+            let cur = format!("$1{gs}250{d}5");
+            let prevs: Vec<Prev> = vec![
+                p(0, "general", false, false, &[], "absent"),
+                p(0, "general", false, false, &["x", ""], "empty-default"),
+                p(0, "general", false, false, &["'007"], "quoted-text"),
+                p(0, "general", false, false, &["'abc", ""], "quoted-then-emptied"),
+                p(0, "general", false, false, &["hello"], "plain-text"),
+                p(0, "general", false, false, &["42"], "number-plain"),
+                p(0, "general", false, false, &["50%"], "number-percent"),
+                p(0, "general", false, false, &[cur.as_str()], "number-currency"),
+                p(0, "general", false, false, &["5\u{20ac}"], "number-currency-suffix"),
+                p(0, "general", false, false, &["1/2/2020"], "number-date-yyyy"),
+                p(0, "general", false, false, &["1/2/20"], "number-date-yy"),
+                p(0, "general", false, false, &["2020-01-02"], "number-date-iso"),
+                p(0, "general", false, false, &[grouped.as_str()], "number-grouped"),
+                p(0, "general", false, false, &["1e3"], "number-scientific"),
+                p(0, "general", false, false, &["true"], "boolean"),
+                p(0, "general", false, false, &["#DIV/0!"], "error"),
+                p(0, "general", false, false, &["=1+1"], "formula"),
+                p(0, "general", false, false, &["'007", "50%"], "quoted-then-percent"),
+                p(1, "general", false, true, &[], "cell-style-bold"),
+                p(1, "0.00", false, true, &[], "cell-style-bold-0.00"),
+                p(1, "general", true, false, &[], "cell-style-quote-prefix"),
+                p(1, "dd/mm/yyyy", false, false, &[], "cell-style-date"),
+                p(1, "general", false, true, &["'007"], "bold-then-quoted-text"),
+                p(2, "0.000", false, true, &[], "row-style"),
+                p(2, "general", true, false, &[], "row-style-quote-prefix"),
+                p(3, "#,##0.00", false, true, &[], "column-style"),
+            ];
+            let inputs: Vec<String> = vec![
+                "".into(), "0".into(), "7".into(), format!("-2{d}5"), "50%".into(), format!("12{d}5%"), cur.clone(), "5\u{20ac}".into(), "-$3".into(),
+                grouped.clone(), format!("1{gs}234{d}5"), "1e3".into(), "3/4/2021".into(), "3/4/21".into(), "2021-03-04".into(), "3-4-2021".into(),
+                "true".into(), "FALSE".into(), g.booleans.r#true.clone(), "#DIV/0!".into(), g.errors.value.clone(), "abc".into(), "'007".into(), "'".into(), "'=1".into(),
+                "=1+1".into(), "=A2".into(), "+A2".into(), format!("0{d}30000000000000004"), "123456789012345678".into(), "1e999".into(), " 12 ".into(), "http://example.com".into(),
+            ];
+            let mut cx = Ctx::new(loc, lang);
+            for pv in &prevs {
+                for inp in &inputs {
+                    cx.fresh();
+                    // initial style
+                    if pv.place != 0 {
+                        let mut st = cx.m.get_style_for_cell(0, 1, 1).unwrap();
+                        st.num_fmt = pv.fmt.to_string(); st.quote_prefix = pv.qp; st.font.b = pv.bold;
+                        let r = match pv.place { 1 => cx.m.set_cell_style(0, 1, 1, &st), 2 => cx.m.set_row_style(0, 1, &st), _ => cx.m.set_column_style(0, 1, &st) };
+                        if r.is_err() { continue; }
+                    }
+                    let mut ok = true;
+                    for stp in pv.steps.iter().chain(std::iter::once(inp)) {
+                        let r = std::panic::catch_unwind(std::panic::AssertUnwindSafe(|| cx.m.set_user_input(0, 1, 1, stp.to_string())));
+                        if !matches!(r, Ok(Ok(()))) { ok = false; break; }
+                    }
+                    if !ok { cx = Ctx::new(loc, lang); continue; }
+                    let s1 = snap(&cx);
+                    let q1 = cx.m.get_style_for_cell(0, 1, 1).unwrap().quote_prefix;
+                    let r2 = std::panic::catch_unwind(std::panic::AssertUnwindSafe(|| cx.m.set_user_input(0, 1, 1, s1.content.clone())));
+                    if !matches!(r2, Ok(Ok(()))) { cx = Ctx::new(loc, lang); continue; }
+                    let s2 = snap(&cx);
+                    let q2 = cx.m.get_style_for_cell(0, 1, 1).unwrap().quote_prefix;
+                    let steps_w = if pv.steps.is_empty() { "_".to_string() } else { pv.steps.iter().map(|x| wire(x)).collect::<Vec<_>>().join(",") };
+                    cs.case(&format!("r2 {} {} {} {} {} {} {}", loc, lang, wire(pv.fmt), b(pv.qp), steps_w, wire(inp), wire(&s1.content)),
+                            &format!("{} q{} ; {} ; {} q{}", s1.obs.line(), b(q1), wire(&s1.content), s2.obs.line(), b(q2)));
+                    orc.checked += 1; n_two += 1;
+                    *two_kinds.entry(format!("{}>{}", pv.name, kind(&s1.obs))).or_insert(0) += 1;
+                    nontrivial.insert(format!("{}|{}|{}|{}", lang, loc, pv.name, s1.content));
+                    let same_val = match (&s1.obs, &s2.obs) {
+                        (Obs::Num(x, _), Obs::Num(y, _)) => x.to_bits() == y.to_bits() || s1.v15 == s2.v15,
+                        (p_, q_) => p_ == q_,
+                    };
+                    if s1.content == s2.content && kind(&s1.obs) == kind(&s2.obs) && s1.style == s2.style && same_val { continue; }
+                    let inj = json!({"lang": lang, "locale": loc, "previous": pv.name, "previous_steps": pv.steps, "previous_style": {"where": pv.place, "num_fmt": pv.fmt, "quote_prefix": pv.qp, "bold": pv.bold}, "text": inp, "content": s1.content});
+                    let detail = format!("{} q{} / style {} -> content {:?} -> {} q{} / content {:?}{}", s1.obs.line(), b(q1), if s1.style == s2.style { "same" } else { "CHANGED" }, s1.content, s2.obs.line(), b(q2), s2.content, if same_val { "" } else { " VALUE CHANGED" });
+                    let class = match (&s1.obs, &s2.obs) {
+                        (Obs::Empty, _) if q1 && s1.content == "'" => "c18-emptied-quote-prefix-cell",
+                        (Obs::Bool(bv), Obs::Text(t)) if lang != "en" && s1.style == s2.style && *t == (if *bv { g.booleans.r#true.clone() } else { g.booleans.r#false.clone() }) => "c18-localized-boolean-becomes-text",
+                        (Obs::Formula, Obs::Formula) if s1.content.contains(':') => "c18-range-formula-display-not-stable",
+                        (Obs::Formula, _) => "c18-formula-roundtrip",
+                        (Obs::Num(..), Obs::Text(_)) if !q1 && (s1.content == "inf" || s1.content == "-inf" || s1.content == "NaN") => "c18-nonfinite-display",
+                        (Obs::Num(_, f1), Obs::Num(_, f2)) if same_val && s1.content == s2.content && f1 != "0.00E+00" && f2 == "0.00E+00" && s1.content.contains('e') => "c18-exponent-display-changes-format",
+                        (Obs::Num(..), _) if q1 => "c18-number-cell-keeps-quote-prefix",
+                        (Obs::Num(_, f1), Obs::Num(_, f2)) if f1 == f2 && f1.contains("yy") && !f1.contains("yyyy") && !same_val => "c18-two-digit-year-display-outside-window",
+                        (Obs::Num(_, f1), Obs::Num(_, f2)) if f1 == f2 && f1.contains('y') && !f1.starts_with('y')
+                            && f1.starts_with('d') != l.dates.date_formats.short.starts_with('d') => "c18-date-format-order-differs-from-locale",
+                        (Obs::Num(_, f1), _) if f1.contains('y') || f1.contains('d') => "c18-date-formatted-number-display-not-reentered",
+                        (Obs::Num(..), _) => "c18-number-roundtrip",
+                        (Obs::Text(_), _) | (Obs::Quoted(_), _) => "c18-string-roundtrip",
+                        (Obs::Err(_), _) => "c18-error-roundtrip",
+                        (Obs::Bool(_), _) => "c18-boolean-roundtrip",
+                        _ => "c18-roundtrip",
+                    };
+                    orc.fail(class, inj, detail);
+                }
+            }
+        }
+    }
     let checked = orc.checked;
     cs.finish(json!({
-        "distribution": {"configurations": n_cfg, "pool": pool.len(), "exhaustive_maxlen": maxlen, "first_cell_kinds": per_kind},
+        "distribution": {"two_step_cases": n_two, "two_step_previous_x_first_kind": two_kinds, "configurations": n_cfg, "pool": pool.len(), "exhaustive_maxlen": maxlen, "first_cell_kinds": per_kind},
         "samples": samples, "oracle_checked": checked, "oracle_failures": orc.failures,
         "oracle_failures_per_class": orc.per_class, "distinct_nontrivial": nontrivial.len(),
     }));
